@@ -6,8 +6,11 @@
             and the not-found code literals are the REGENERATED definitions of Gen/GenS3.v; the bucket
             itself (GET/HEAD/PUT/DELETE/list by string prefix, error codes of a missing key) is the
             trusted model of S3 that harness/lib/fakes3.py implements.
-   local  : LocalStorageBackend over a directory tree (files + directories; makedirs on write, os.walk,
-            os.path.exists true for directories, os.remove refusing directories).
+   local  : LocalStorageBackend over a directory tree (files + directories; makedirs on write, os.walk).  A key names a
+            FILE: exists = os.path.isfile (os.path.isdir only for a path spelled with a trailing "/", the S3 backend's
+            rule), read / open / size / mtime of anything that is not a regular file (a directory, a path below a
+            file, nothing) = FileNotFoundError, delete of it = no-op.  Writes still run into the file system: a key
+            that is a directory of another key (or lies below a file) cannot be written.
 
    Open k prog : open_seekable(k) and a seek/read program (Model/Range.v) on the reader it returns -- one
             operation of the history, so that it interleaves with writes, overwrites and deletes of the same key
@@ -55,7 +58,6 @@ Inductive obs :=
 | OBool (b : bool)
 | OList (l : list str)
 | OSize (n : Z)
-| OSizeDir                  (* local get_size on a directory: a file-system dependent number *)
 | OOpened (os : list (@robs ascii)) (final : Z)   (* what the program observed on the reader, and where it ended *)
 | OErr (e : errk).
 
@@ -133,6 +135,10 @@ Definition op_key (o : op key) : list key :=
   | ListDir _ => []
   | Write k _ | Read k | Exists k | Delete k | Size k | Mtime k | Open k _ | Stream k | WriteCas k _ | ReadTag k => [k]
   end.
+
+(* the keys an operation WRITES *)
+Definition op_written (o : op key) : list key :=
+  match o with Write k _ | WriteCas k _ => [k] | _ => [] end.
 
 (* no key is a directory of another key: the key families a file system can hold *)
 Definition prefix_free (ks : list key) : Prop := forall a b, In a ks -> In b ks -> under a b = false.
@@ -264,9 +270,9 @@ Definition below_file (s : lstate) (k : key) : bool := existsb (is_file s) (prop
 Fixpoint add_dirs (ps : list key) (dirs : list key) : list key :=
   match ps with [] => dirs | p :: ps' => add_dirs ps' (if kmem p dirs then dirs else dirs ++ [p]) end.
 
-(* what a path that is not a regular file answers to open/stat *)
-Definition missing (s : lstate) (k : key) : obs :=
-  if is_dir s k then OErr IsDir else if below_file s k then OErr NotDir else OErr NotFound.
+(* what a path that is not a regular file (a directory, a path below a file, nothing at all) answers to
+   read / open / stat: LocalStorageBackend._existing_file raises FileNotFoundError *)
+Definition missing : obs := OErr NotFound.
 
 Definition local_write (s : lstate) (k : key) (v : bytes) : lstate * obs :=
   if below_file s k then (s, OErr NotDir)                                (* makedirs runs into a file *)
@@ -277,29 +283,26 @@ Definition local_write (s : lstate) (k : key) (v : bytes) : lstate * obs :=
 Definition local_step (s : lstate) (o : op key) : lstate * obs :=
   match o with
   | Write k v | WriteCas k v => local_write s k v
-  | Read k | ReadTag k => (s, match lookup key_eqb k (lfiles s) with Some v => OBytes v | None => missing s k end)
-  | Exists k => (s, OBool (is_file s k || is_dir s k))
+  | Read k | ReadTag k => (s, match lookup key_eqb k (lfiles s) with Some v => OBytes v | None => missing end)
+  | Exists k => (s, OBool (is_file s k))                                     (* os.path.isfile *)
   | ListDir d => (s, OList (if is_dir s d then map join (filter (under d) (map fst (lfiles s))) else []))
   | Delete k =>
     if is_file s k then ({| lfiles := remove key_eqb k (lfiles s); ldirs := ldirs s |}, OUnit)
-    else if is_dir s k then (s, OErr IsDir)                                 (* os.remove on a directory *)
-    else (s, OUnit)                                                         (* os.path.exists false: no-op *)
-  | Size k =>
-    (s, match lookup key_eqb k (lfiles s) with
-        | Some v => OSize (size_of v)
-        | None => if is_dir s k then OSizeDir else missing s k
-        end)
-  | Mtime k =>
-    (s, match lookup key_eqb k (lfiles s) with
-        | Some _ => OUnit
-        | None => if is_dir s k then OUnit else missing s k
-        end)
-  | Open k prog => (s, match lookup key_eqb k (lfiles s) with Some v => file_obs v prog | None => missing s k end)
-  | Stream k => (s, match lookup key_eqb k (lfiles s) with Some v => OBytes v | None => missing s k end)
+    else (s, OUnit)                                                         (* os.path.isfile false: no-op *)
+  | Size k => (s, match lookup key_eqb k (lfiles s) with Some v => OSize (size_of v) | None => missing end)
+  | Mtime k => (s, match lookup key_eqb k (lfiles s) with Some _ => OUnit | None => missing end)
+  | Open k prog => (s, match lookup key_eqb k (lfiles s) with Some v => file_obs v prog | None => missing end)
+  | Stream k => (s, match lookup key_eqb k (lfiles s) with Some v => OBytes v | None => missing end)
   end.
 
 (* the backends as the library calls them: with "/"-joined strings *)
-Definition local_step_str (s : lstate) (o : op str) : lstate * obs := local_step s (map_op components o).
+Definition local_step_str (s : lstate) (o : op str) : lstate * obs :=
+  match o with
+  | Exists p =>
+    (* a path spelled as a directory (trailing "/") asks for the directory: os.path.isdir *)
+    if ends_with p (lit "/") then (s, OBool (is_dir s (components p))) else local_step s (Exists (components p))
+  | _ => local_step s (map_op components o)
+  end.
 
 Definition run_spec (ops : list (op key)) : list obs := snd (run spec_step [] ops).
 Definition run_local (ops : list (op key)) : list obs := snd (run local_step_str linit (map (map_op join) ops)).
@@ -320,3 +323,6 @@ Definition prefix_freeb (ks : list key) : bool := forallb (fun a => forallb (fun
 Definition foreign_okb (pfx : str) (F : bucket) : bool :=
   forallb (fun k => negb (starts_with k (table_root pfx))) (map fst F).
 Definition op_keys (ops : list (op key)) : list key := flat_map op_key ops.
+(* the keys a history writes: the only ones the local theorem constrains (probes -- read, exists, size, mtime,
+   delete, open -- may name anything, also a directory of a written key or a path below one) *)
+Definition written_keys (ops : list (op key)) : list key := flat_map op_written ops.
